@@ -351,4 +351,29 @@ def t4(chk):
             x = it.call(A, [SInt(a)], {})
             return it.call_method(x, name, [SInt(k)]).fields["halfturns"]
         chk.prove_paths(f"angle.{name}:scales-the-halfturns", e.explore(t), lambda p: (p.value.t == a * k) if p.kind == "return" and isinstance(p.value, SInt) else z3.BoolVal(False), func=f"{AN}:angle.{name}")
+    # division, conversion and comparison: halfturns is an opaque real whose operators record the
+    # expression they build (the operand ORDER is what matters: `x / angle` is angle(x / halfturns))
+    import math as _math
+    RC = ClassVal("Real", builtin=True)
+    mk = lambda ex: SObj(RC, {"ex": ex})  # noqa: E731
+    un = lambda v: v.fields["ex"] if isinstance(v, SObj) and v.cls is RC else v  # noqa: E731
+    RC.attrs["__truediv__"] = Builtin("div", lambda s_, o: mk(("div", un(s_), un(o))))
+    RC.attrs["__rtruediv__"] = Builtin("rdiv", lambda s_, o: mk(("div", un(o), un(s_))))
+    RC.attrs["__mul__"] = Builtin("mul", lambda s_, o: mk(("mul", un(s_), un(o))))
+    RC.attrs["__rmul__"] = Builtin("rmul", lambda s_, o: mk(("mul", un(o), un(s_))))
+    RC.attrs["__eq__"] = Builtin("eq", lambda s_, o: ("eq", un(s_), un(o)))
+    e.models[f"{AN}:py"] = lambda it, a_, k_: a_[0]
+    norm = lambda v: tuple(_math.pi if getattr(x, "name", None) == "math.pi" else x for x in v) if isinstance(v, tuple) else v  # noqa: E731
+    cases = {"__truediv__": (["K"], ("div", "H", "K")), "__rtruediv__": (["K"], ("div", "K", "H")), "__float__": ([], ("mul", "H", _math.pi)), "__eq__": (["OTHER"], ("eq", "H", "H2"))}
+    for name, (args, want) in cases.items():
+        e.func_info(AN, f"angle.{name}")
+
+        def t2(it, name=name, args=args):
+            A = it.lookup_global(m, "angle")
+            x = it.call(A, [mk("H")], {})
+            actual = [it.call(A, [mk("H2")], {}) if a_ == "OTHER" else mk(a_) for a_ in args]
+            r = it.call_method(x, name, actual)
+            return r.fields["halfturns"] if isinstance(r, SObj) and "halfturns" in r.fields else r
+        chk.prove_paths(f"angle.{name}:{want}", e.explore(t2), lambda p, want=want: z3.BoolVal(p.kind == "return" and norm(un(p.value)) == want), func=f"{AN}:angle.{name}")
+    e.models.pop(f"{AN}:py", None)
     chk.use_engine(e)
